@@ -130,8 +130,8 @@ fn check(args: &[String]) -> i32 {
     if let Some(run) = rep.hang {
         let s = props::generate(&prop, seed, run, thorough);
         let rf = ReplayFile { property: prop.clone(), class: "hang".into(), detail: format!("no progress within {} s", orchestrate::HANG_LIMIT_S), seed, run, unminimised_size: s.facts.size(), minimised_size: s.facts.size(), minimiser_executions: 0, trace: vec![], scenario: s };
-        let _ = std::fs::create_dir_all("/verif/replays");
-        let path = format!("/verif/replays/{prop}-{seed}-{run}-hang.json");
+        let _ = std::fs::create_dir_all(format!("{}/replays", orchestrate::out_dir()));
+        let path = format!("{}/replays/{prop}-{seed}-{run}-hang.json", orchestrate::out_dir());
         let _ = std::fs::write(&path, serde_json::to_string_pretty(&rf).unwrap());
         println!("VIOLATION property={prop} replay={path}");
         println!("  class=hang run={run}");
@@ -243,8 +243,8 @@ fn write_evidence(prop: &str, thorough: bool, seed: u64, plan: &Plan, rep: &orch
         "wall_s": wall,
         "violations": violations,
     });
-    let _ = std::fs::create_dir_all("/verif/evidence");
-    let _ = std::fs::write(format!("/verif/evidence/{prop}.json"), serde_json::to_string_pretty(&ev).unwrap());
+    let _ = std::fs::create_dir_all(format!("{}/evidence", orchestrate::out_dir()));
+    let _ = std::fs::write(format!("{}/evidence/{prop}.json", orchestrate::out_dir()), serde_json::to_string_pretty(&ev).unwrap());
 }
 
 fn replay(path: &str) -> i32 {
